@@ -199,6 +199,8 @@ def variants(case, real, opts, tiny=False):
         mats = [fill.dense_fill([(S["I"][m] % 3) + 1, S["I"][m]], S["f"] + m + 2, S["cx"], dt) for m in modes]
         if case["aslist"]:
             out.append(("list", ops, lambda: X.mprod(mats, modes), dt, s))
+            if len(modes) >= 2:          # the pairs in another order: products over different modes commute
+                out.append(("list-reversed", ops, lambda: X.mprod(mats[::-1], modes[::-1]), dt, s))
         else:
             out.append(("single", ops, lambda: X.mprod(mats[0], modes[0]), dt, s))
     elif op == "mprod_rep":
